@@ -5,7 +5,9 @@ cd /verif
 patch=$1; shift
 props=${*:-C01 C02 C03 C04 C05 C06 C07 C08 C09 C10 C11 C12 C13 C14 C15 C16 C17 C18}
 git -C /repo apply "$patch" || { echo "patch does not apply"; exit 2; }
-trap 'git -C /repo checkout -- . ; git -C /repo clean -fdq tests 2>/dev/null' EXIT
+# evidence files describe the UNCHANGED tree: keep them aside while the checks run against a patched one
+rm -rf work/evidence.keep; cp -r evidence work/evidence.keep
+trap 'git -C /repo checkout -- . ; git -C /repo clean -fdq tests 2>/dev/null; rm -rf evidence; mv work/evidence.keep evidence' EXIT
 for p in $props; do
   ( ./check $p quick > work/try_$p.txt 2>&1; echo "$p exit $? $(grep -h 'VIOLATION\|KNOWN' work/try_$p.txt | head -2 | tr '\n' ' ')" ) &
 done
